@@ -137,7 +137,7 @@ class SizingSetProtocol(Protocol):
     def contains(self, st, obj, x):
         f = z3.Function("SizingSet.has", obj.e.sort(), z3.IntSort(), z3.BoolSort())
         r = mk_bool(f(obj.e, z3.IntVal(V.atom_code(x))))
-        st.ghost.setdefault("uf_calls", []).append((str(obj.e), "sizing_has", {"x": str(getattr(x, "value", x))}, r))
+        st.ghost.setdefault("uf_calls", []).append((V.zstr(obj.e), "sizing_has", {"x": str(getattr(x, "value", x))}, r))
         return r
 
 
